@@ -45,7 +45,28 @@ def _worker(task):
 CHEAP = ('G0', 'G10', 'G11', 'G20', 'G21', 'G28', 'G90', 'G91', 'G92', 'M206', 'M999')
 
 
+def decorator_premise(ctx):
+    """the interpreter evaluates function bodies and ignores decorators: sound for property / setter / staticmethod, and for
+    memoised functions only when their result depends on nothing but the arguments"""
+    from . import census
+    rid = '%s.MEMO' % ctx.prop
+    if rid in ctx.rules:
+        return
+    ctx.rule(rid, 'no function whose result depends on object or module state is memoised (lru_cache, cache, cached_property), '
+                  'and no decorator changes what a call does: every call is analysed as a fresh evaluation of the body', floor=1)
+    for (q, name, kind, detail, line) in census.decorated_functions(ctx.model):
+        ctx.instance(rid, (q, name))
+        if kind == 'memo-impure':
+            ctx.report(rid, q, '@%s on a function that reads %s' % (name, detail),
+                       'the result is cached per argument tuple although it also depends on %s: after that state changes (an '
+                       '@-command, a settings update, a new print) calls with arguments seen before return the stale answer' % detail,
+                       line=line)
+        elif kind == 'unknown':
+            raise AnalysisError('decorator @%s on %s is not modelled: the analysis would ignore what it does' % (name, q))
+
+
 def run_path_rules(ctx, modname, fnname, gcodes, **opts):
+    decorator_premise(ctx)
     if ctx.tier == 'thorough':
         opts = dict(opts, unroll=max(2, opts.get('unroll', 1)), debug_logging=True)
     tasks = []
